@@ -339,7 +339,7 @@ def run_case(run, spec):
     if shuffle_mode == "random":
         run.count("random_bijection_checked")
         if not perfect_matching(admissible):
-            run.violation("random-partner-not-a-permutation", f"shuffle_mode=random: no bijection fits the decoded partners {[sorted(a) for a in admissible]} "
+            run.violation(f"random-partner-not-a-permutation:{cc}", f"shuffle_mode=random: no bijection fits the decoded partners {[sorted(a) for a in admissible]} "
                           f"(several samples were mixed with the same partner)")
             return
         if B >= 5 and spec["split"] == "mixup" and cfg["mixup_alpha"] >= 1 and bits == 6:
